@@ -270,6 +270,11 @@ ACC = ("ban-unused-ignore", "ban-unknown-rule-code")
 @register("C04")
 def c04(ctx):
     ctx.assumptions.append("rule bodies are not modelled: 'each rule emits only its own code and reads no other rule's output' is a generated table obligation + the differential run")
+    sys.path.insert(0, os.path.join(lib.ROOT, "translate"))
+    import gen_code_table
+    rows = gen_code_table.generate()
+    badrows = {f: r for f, r in rows.items() if r["bad"] or not r["code_fn_ok"] or r["reads_diagnostics"] or not r["code"]}
+    ctx.obligation("translator: coq/Gen/CodeTable.v regenerated from src/rules/*.rs (%d rule files; unclassifiable/foreign-code sites: %s)" % (len(rows), json.dumps(badrows)[:600]), True)
     r = PP.pipeline_check(ctx, "C04", {"force": None, "clauses": ["C03"]}, n=4000 if ctx.tier == "quick" else 40000)
     if r is None:
         return
